@@ -17,16 +17,21 @@ ap.add_argument("--ll2c-flag", action="append", default=[], help="extra ll2c fla
 ap.add_argument("--extra-models", default="", help="comma list of further model files under models/ (job key extra_models)")
 ap.add_argument("--drop-functions", default="", help="comma list of IR functions whose bodies are deleted before DCE (job key drop_functions)")
 ap.add_argument("--cbmc-flag", action="append", default=[], help="further cbmc option words (job key cbmc_flags), e.g. --cbmc-flag=--max-field-sensitivity-array-size --cbmc-flag=512")
+ap.add_argument("--native-flag", action="append", default=[], help="extra g++ flags of the native replay build (job key native_flags)")
 ap.add_argument("--pregen", default="", help="comma list of generator sources relative to /verif (job key pregen)")
 ap.add_argument("--pregen-units", default="", help="units (or a specs list name) the generators are linked with (job key pregen_units)")
 ap.add_argument("--verbosity9", action="store_true", help="debug recipe: run cbmc --verbosity 9 and print 'Unwinding loop' counts per loop")
 a = ap.parse_args()
-units = getattr(specs, a.units) if hasattr(specs, a.units) else [u for u in a.units.split(",") if u]
+units = []
+for u in a.units.split(","):
+    if not u: continue
+    units += list(getattr(specs, u)) if hasattr(specs, u) else [u]
 job = dict(name="try-" + os.path.splitext(a.harness)[0], harness=a.harness, entries=[a.entry], units=units, unwind=a.unwind, eh=a.eh,
            checks="mem" if a.mem else "none", object_bits=a.object_bits, defines=a.define, unwindset=a.unwindset, ll2c_flags=a.ll2c_flag)
 if a.extra_models: job["extra_models"] = [m for m in a.extra_models.split(",") if m]
 if a.drop_functions: job["drop_functions"] = [m for m in a.drop_functions.split(",") if m]
 if a.cbmc_flag: job["cbmc_flags"] = list(a.cbmc_flag)
+if a.native_flag: job["native_flags"] = list(a.native_flag)
 if a.pregen: job["pregen"] = [m for m in a.pregen.split(",") if m]
 if a.pregen_units: job["pregen_units"] = getattr(specs, a.pregen_units) if hasattr(specs, a.pregen_units) else [u for u in a.pregen_units.split(",") if u]
 params = {int(p.split("=")[0]): int(p.split("=")[1]) for p in a.param}
